@@ -7,6 +7,10 @@ props = [json.loads(l) for l in open(os.path.join(V, "properties.jsonl"))]
 ABM_TECH = "TLA+ spec (spec/Abm.tla) + TLC exhaustive invariants; TLC-generated behaviours (all short histories + long random ones) replayed into the implementation with the observation compared after every action"
 SRV_TECH = "TLA+ spec (spec/Server.tla) + TLC exhaustive invariants/action properties; TLC-generated request histories replayed into a real BptkServer (Flask test client, controlled clock, FileAdapter on a scratch directory) with every response compared"
 CHECKS = {
+ "C18": dict(cat="model_checking", ref="6/C18",
+    text="spec/StepLock.tla: each stepping request is a process over the critical sections try-lock / read clock / write clock / unlock (plus client abort of a stream); TLC explores every interleaving of 2 and 3 concurrent requests of all kind combinations and checks Exclusive, Serial, Consecutive, NoDup, ClockExact, Released, RefusedNothing; the three deviations of the old code (check-then-lock, run-step without lock, stream without unlock) each violate a clause in the spec. Every schedule emitted by TLC (sampled for 3 requests) is forced on the real server by a line-level scheduler (request threads park at the anchor source lines), the five clauses are evaluated on the real responses/clock/lock/session-results/follow-up step, and the recorded event traces (lock flag and clock after every segment) are validated by TLC against spec/StepLockTrace.tla with all invariants evaluated in every trace state",
+    note="anchors are found by text at run time (missing anchors = machinery failure, exit 2); preemption inside one anchor line is not explored; N=2, stop=3",
+    tech="TLA+ spec + TLC exhaustive over interleavings; TLC schedules forced on the implementation (sys.settrace scheduler); recorded traces validated against the spec by TLC (trace validation, deadlock = rejection)"),
  "C15": dict(cat="model_checking", ref="6/C15",
     text="spec/Server.tla with the action Refused(kind, instance, credential) and the action property AuthOK (a refused request answers >= 400 and leaves clock, instance table, external store untouched), checked by TLC in every reachable server state; against the live app: every rule and method of the URL map (enumerated at run time) x 14 credential shapes that do not contain the token x 5 server states (no instances, instance without session, live session, locked session, externalised swept instance) x adapter on/off is sent with a body that would act when authorised, and a deep snapshot (instance table, session states, scenario settings, memo sizes, object identities, bytes of the state directory, destroy calls) is compared before/after; authorised controls prove the requests would have had an effect; TLC histories mixing authorised and refused requests are replayed",
     note="refusal demanded only for credentials not containing the exact token as a space-delimited word; Flask's automatic OPTIONS response must change nothing but need not be a refusal",
